@@ -83,7 +83,7 @@ def handleDoc (fields : List String) : Option String :=
       match name with
       | "remove_nonsvg_content" => some ("ok " ++ encTree (Cleanup.removeNonSvg ng n))
       | "remove_processing_instructions" => some ("ok " ++ encTree (Cleanup.removePIs n))
-      | "remove_anonymous_symbols" => some ("ok " ++ encTree (Cleanup.removeAnonSymbols n))
+      | "remove_anonymous_symbols" => some ("ok " ++ encTree (Cleanup.removeAnonSymbolsH n))
       | "remove_title_meta_desc" => some ("ok " ++ encTree (Cleanup.removeTitleMetaDesc n))
       | "cleanup" => some ("ok " ++ encTree (Cleanup.cleanup ng n))
       | "apply_style_attributes" => some (encExcept encTree (Cleanup.applyStyles n))
